@@ -36,6 +36,31 @@ def widen(env: bytes) -> bytes:
     return env
 
 
+def widen_block_tags(env: bytes) -> bytes:
+    """The same signed envelope as another encoder may write it: tag 18 of every COSE_Sign1 authentication block in the two-byte
+    form d8 12 instead of d2 (well-formed CBOR, same data model); all other bytes keep their place, the enclosing byte-string
+    heads are re-computed."""
+    from . import cborx
+    top = cborx.loads(env)
+    if top.mt != 6 or top.tag != 107 or top.val.mt != 5:
+        return env
+    out = b"\xd8\x6b" + cborx.head(5, len(top.val.val))
+    for k, v in top.val.val:
+        if k.mt == 0 and k.val == 2 and v.mt == 2:
+            a = cborx.loads(v.val)
+            if a.mt == 4:
+                items = []
+                for j, it in enumerate(a.val):
+                    if j and it.mt == 2 and it.val[:1] == b"\xd2":
+                        items.append(cborx.dumps(b"\xd8\x12" + it.val[1:]))
+                    else:
+                        items.append(it.raw)
+                out += k.raw + cborx.dumps(cborx.head(4, len(items)) + b"".join(items))
+                continue
+        out += k.raw + v.raw
+    return out
+
+
 def blob(size: int, seed: int) -> bytes:
     """Deterministic content per (size, seed).  One seed in eleven yields content made of characters only (see textlike): files
     and payloads are binary whatever they look like, in every check that draws its contents here."""
@@ -157,17 +182,18 @@ class Builder:
                 "suit-parameter-class-identifier": {"RFC4122_UUID": {"namespace": cid[1], "name": cid[2]}}}},
                 {"suit-condition-vendor-identifier": ALLPOL}, {"suit-condition-class-identifier": ALLPOL}]
         # images (C05 reference forms)
-        for k, (form, alg, size, seed) in enumerate(sh.get("imgs", [])):
+        for k, (form, alg, size, seed, *decl) in enumerate(sh.get("imgs", [])):
             data = blob(size, seed)
+            declared = decl[0] if decl else size   # file_direct / raw: the number is what the description (or the text file) says
             if form == "file":
                 f = self._file(data, sh.get("imgnames", {}).get(str(k)))
                 dg, sz = {"file": f}, {"file": f}
             elif form == "file_direct":
                 fd = self._file(H(HASH_IDS[alg], data))
-                fs = self._file(str(size).encode())
+                fs = self._file(str(declared).encode())
                 dg, sz = {"file_direct": fd}, {"file_direct": fs}
             elif form == "raw":
-                dg, sz = {"raw": H(HASH_IDS[alg], data).hex()}, {"raw": size}
+                dg, sz = {"raw": H(HASH_IDS[alg], data).hex()}, {"raw": declared}
             else:
                 raise ValueError(form)
             comps.append(["M", 3 + k, 1000 * k, size])
